@@ -372,6 +372,9 @@ def shared_split_rectangles(ctx: Ctx) -> None:
     from . import C11 as _c11
     from .common import support
     support(ctx, [_c11.r2, _c11.r3], {"split_rectangles"})
+    # ... and the cell lists handed to the allocation are the die's current ones (seeded change C03-9: a memoised pair that
+    # initial_grid does not invalidate)
+    support(ctx, [_c11.r6], {"Die.floorplanning_rectangles", "Die.initial_grid"})
 
 
 @rule("C03", "R10.shapes-as-described", "EFFECT",
